@@ -307,6 +307,65 @@ class Body:
         cache[key] = res if ok and res else None
         return cache[key]
 
+    def idom(self, bid):
+        """immediate dominator of a block (None for the entry)"""
+        ds = self.dominators().get(bid, set()) - {bid}
+        best = None
+        for d in ds:
+            if best is None or len(self.dominators()[d]) > len(self.dominators()[best]):
+                best = d
+        return best
+
+    def branch_dnf(self, where, limit=64):
+        """Reaching condition of a phi branch (a CFG edge into a merge block) *relative to the immediate dominator of the merge
+        block*: the disjunction over the acyclic paths from that dominator to the edge, each a conjunction of the switch decisions
+        on the way. Exact where path_dnf gives up (the function has loops): the decisions before the dominator are common to all
+        branches of the phi. None when there are too many paths or `where` is not an edge."""
+        if not (isinstance(where, tuple) and len(where) == 2 and isinstance(where[0], int)):
+            return None
+        key = ('bdnf', where)
+        cache = self.__dict__.setdefault('_dnf_cache', {})
+        if key in cache:
+            return cache[key]
+        p, succ = where
+        D = self.idom(succ)
+        if D is None:
+            cache[key] = None
+            return None
+        P = self.preds()
+
+        def edge_cond(q, x):
+            t = self.blocks[q]['term']
+            if t['k'] != 'switch':
+                return None
+            vals = frozenset(v for v, tgt in t['vals'] if tgt == x)
+            if t['otherwise'] == x:
+                excl = frozenset(v for v, tgt in t['vals'] if tgt != x)
+                if not excl:
+                    return None
+                return (q, self.expr(t['discr']), ('else', excl))
+            return (q, self.expr(t['discr']), vals) if vals else None
+        res = []
+        ok = True
+        c0 = edge_cond(p, succ)
+        stack = [(p, [c0] if c0 else [], frozenset([p, succ]))]
+        while stack and ok:
+            x, conds, seen = stack.pop()
+            if x == D:
+                res.append(list(reversed(conds)))
+                if len(res) > limit:
+                    ok = False
+                continue
+            for q in P.get(x, []):
+                if self.blocks[q]['cleanup'] or q in seen and q != D:
+                    continue
+                if D not in self.dominators().get(q, ()):
+                    continue
+                c = edge_cond(q, x)
+                stack.append((q, conds + ([c] if c else []), seen | {q}))
+        cache[key] = res if ok and res else None
+        return cache[key]
+
     def _reach_avoiding(self, a, b, avoid):
         if a == avoid:
             return False
@@ -1011,6 +1070,18 @@ def norm_cond(d, v):
     return d, v
 
 
+def cond_infeasible(d, v):
+    """a branch decision on a *constant* that the constant does not satisfy (`if false`, a flag parameter of a spliced
+    helper that its call site fixes): the branch is dead"""
+    x = d
+    while x[0] in ('ref', 'deref'):
+        x = x[1]
+    if x[0] == 'const' and isinstance(x[2], (bool, int)) and not isinstance(x[2], float):
+        val = int(x[2])
+        return (val in v[1]) if isinstance(v, tuple) else (val not in v)
+    return False
+
+
 def alternatives(body, e, limit=64, _conds=()):
     """E6 gamma expansion: expand phi nodes reachable from the top of `e` through projection /
     cast / ref wrappers into alternatives [(expr, conds)], conds = tuple of (discr expr, values)
@@ -1025,6 +1096,8 @@ def alternatives(body, e, limit=64, _conds=()):
             cs = []
             for (_, d, v) in phi_branch_conditions(b2, bid):
                 cs.append(norm_cond(subst_args(d, sub) if sub is not None else d, v))
+            if any(cond_infeasible(d, v) for d, v in cs):
+                continue
             out += alternatives(body, br, limit, tuple(_conds) + tuple(cs))
             if len(out) > limit:
                 break
@@ -1120,6 +1193,8 @@ def joint_alternatives(body, exprs, limit=64, _conds=()):
         cs = []
         for (_, d, v) in phi_branch_conditions(b2, where):
             cs.append(norm_cond(subst_args(d, sub) if sub is not None else d, v))
+        if any(cond_infeasible(d, v) for d, v in cs):
+            continue
         out += joint_alternatives(body, [_replace_spine(e, key, k) for e in exprs], limit - 1, tuple(_conds) + tuple(cs))
         if len(out) > 256:
             break
@@ -1398,6 +1473,13 @@ def implied(body, d, v, depth=0):
                 while b0[0] in ('ref', 'deref'):
                     b0 = b0[1]
                 dv = DV.get('::'.join(str(b0[1]).split('::')[-2:])) if b0[0] == 'aggr' else None
+                if dv is None and b0[0] == 'aggr' and '::' in str(b0[1]):
+                    # a crate-local enum used as a flag (`enum Direction { Up, Down }`): the discriminant of the variant built
+                    rec = body.facts.adts.get(str(b0[1]).rsplit('::', 1)[0])
+                    if rec:
+                        for vv in rec['variants']:
+                            if vv['name'] == str(b0[1]).rsplit('::', 1)[1]:
+                                dv = vv.get('discr')
                 if dv is not None and ((dv in v[1]) if isinstance(v, tuple) else (dv not in v)):
                     continue
                 feas.append((br, where))
@@ -1435,6 +1517,17 @@ def implied(body, d, v, depth=0):
                     d2 = subst_args(d2, sub)
                 out += implied(body, *norm_cond(d2, v2), depth=depth + 1)
             out += implied(body, br, ('else', frozenset({0})) if t else frozenset({0}), depth + 1)
+    return out
+
+
+def implied_strs(body, conds):
+    """cond_str of the given decisions [(d, v)] (flags resolved: resolve_conds) and of every atom they imply"""
+    out = []
+    for d, v in resolve_conds(body, tuple(conds)):
+        for d2, v2 in implied(body, *norm_cond(d, v)):
+            t = cond_str(d2, v2)
+            if t not in out:
+                out.append(t)
     return out
 
 
@@ -1593,8 +1686,13 @@ def consts_in(e):
     return [x for x in walk(e) if x[0] == 'const']
 
 
+CURRENT = None      # the fact base loaded last (lets expression helpers resolve `const ITEM` operands without threading it through)
+
+
 class Facts:
     def __init__(self, path, splice=True):
+        global CURRENT
+        CURRENT = self
         self.path = path
         self.spliced = {}            # helper path -> Body removed from `bodies` after splicing into its callers (scv/inline.py)
         self.splice_report = []
